@@ -44,12 +44,30 @@ impl<'a> GatedInput<'a> {
     fn gate(&self) {
         if GATED.with(|g| g.get()) {
             simrt::w::event(self.ev, 0);
+            // reentrancy: the accessor itself expands another invocation on this thread, to completion, before it returns
+            // (the trait allows any implementation; state kept per thread or per process across the accessor calls of one
+            // expansion is clobbered by it)
+            let n = GATE_COUNT.with(|c| {
+                c.set(c.get() + 1);
+                c.get()
+            });
+            let due = REENTER.with(|r| r.borrow().as_ref().map(|x| x.2 == n).unwrap_or(false));
+            if due {
+                let (text, kind, _) = REENTER.with(|r| r.borrow_mut().take()).unwrap();
+                GATED.with(|g| g.set(false));
+                let out = expand(&text, &kind);
+                GATED.with(|g| g.set(true));
+                NESTED_OUT.with(|o| *o.borrow_mut() = Some(out));
+            }
         }
     }
 }
 thread_local! {
     static GATED: std::cell::Cell<bool> = const { std::cell::Cell::new(false) };
     static GATE_EV: std::cell::Cell<u32> = const { std::cell::Cell::new(0) };
+    static GATE_COUNT: std::cell::Cell<u32> = const { std::cell::Cell::new(0) };
+    static REENTER: std::cell::RefCell<Option<(String, String, u32)>> = const { std::cell::RefCell::new(None) };
+    static NESTED_OUT: std::cell::RefCell<Option<String>> = const { std::cell::RefCell::new(None) };
 }
 impl<'a> join_impl::join::JoinInput for GatedInput<'a> {
     type Chain = join_impl::action_expr_chain::ActionExprChain;
@@ -157,6 +175,8 @@ fn main() {
 struct Op {
     input: usize,
     kind: String,
+    /// reentrant expansion of (input, kind) inside the n-th accessor call of this one
+    nested: Option<(usize, String, u32)>,
 }
 
 fn gen_history(rng: &mut Rng, inputs: &[(String, Vec<String>)], groups: &[Vec<usize>]) -> Vec<Vec<Op>> {
@@ -175,7 +195,13 @@ fn gen_history(rng: &mut Rng, inputs: &[(String, Vec<String>)], groups: &[Vec<us
                 .map(|_| {
                     let i = *rng.pick(&pool);
                     let k = rng.pick(&inputs[i].1).clone();
-                    Op { input: i, kind: k }
+                    let nested = if rng.chance(1, 6) {
+                        let j = *rng.pick(&pool);
+                        Some((j, rng.pick(&inputs[j].1).clone(), 1 + rng.below(8) as u32))
+                    } else {
+                        None
+                    };
+                    Op { input: i, kind: k, nested }
                 })
                 .collect()
         })
@@ -213,9 +239,21 @@ fn run_history(hist: &[Vec<Op>], inputs: Arc<Vec<(String, Vec<String>)>>, refs: 
                         simrt::w::event((ci * 1000 + oi) as u32, op.input as u64);
                         GATED.with(|g| g.set(true));
                         GATE_EV.with(|g| g.set((500_000 + ci * 1000 + oi) as u32));
+                        GATE_COUNT.with(|c| c.set(0));
+                        NESTED_OUT.with(|o| *o.borrow_mut() = None);
+                        REENTER.with(|r| *r.borrow_mut() = op.nested.as_ref().map(|(j, k, at)| (inputs[*j].0.clone(), k.clone(), *at)));
                         let s = expand(&inputs[op.input].0, &op.kind);
                         GATED.with(|g| g.set(false));
+                        REENTER.with(|r| *r.borrow_mut() = None);
                         *count.lock().unwrap() += 1;
+                        if let (Some(ns), Some((j, k, at))) = (NESTED_OUT.with(|o| o.borrow_mut().take()), op.nested.as_ref()) {
+                            *count.lock().unwrap() += 1;
+                            let nh = hash_str(&ns).to_string();
+                            let nexp = refs[*j].iter().find(|(kk, _)| kk == k).map(|(_, h)| h.clone()).unwrap_or_default();
+                            if nh != nexp {
+                                mism.lock().unwrap().push(json!({"client": ci, "op": oi, "input": j, "kind": k, "reentrant_at_accessor_call": at, "inside_input": op.input, "hash": nh, "fresh_process_hash": nexp, "output_head": ns.chars().take(300).collect::<String>()}));
+                            }
+                        }
                         let h = hash_str(&s).to_string();
                         let expected = refs[op.input].iter().find(|(k, _)| *k == op.kind).map(|(_, h)| h.clone()).unwrap_or_default();
                         if h != expected {
@@ -239,10 +277,37 @@ fn run_history(hist: &[Vec<Op>], inputs: Arc<Vec<(String, Vec<String>)>>, refs: 
 }
 
 fn hist_to_json(h: &[Vec<Op>]) -> Value {
-    Value::Array(h.iter().map(|c| Value::Array(c.iter().map(|o| json!([o.input, o.kind])).collect())).collect())
+    Value::Array(
+        h.iter()
+            .map(|c| {
+                Value::Array(
+                    c.iter()
+                        .map(|o| match &o.nested {
+                            None => json!([o.input, o.kind]),
+                            Some((j, k, at)) => json!([o.input, o.kind, [j, k, at]]),
+                        })
+                        .collect(),
+                )
+            })
+            .collect(),
+    )
 }
 fn hist_from_json(v: &Value) -> Vec<Vec<Op>> {
-    v.as_array().unwrap().iter().map(|c| c.as_array().unwrap().iter().map(|o| Op { input: o[0].as_u64().unwrap() as usize, kind: o[1].as_str().unwrap().to_string() }).collect()).collect()
+    v.as_array()
+        .unwrap()
+        .iter()
+        .map(|c| {
+            c.as_array()
+                .unwrap()
+                .iter()
+                .map(|o| Op {
+                    input: o[0].as_u64().unwrap() as usize,
+                    kind: o[1].as_str().unwrap().to_string(),
+                    nested: o.get(2).and_then(|n| n.as_array()).map(|n| (n[0].as_u64().unwrap() as usize, n[1].as_str().unwrap().to_string(), n[2].as_u64().unwrap() as u32)),
+                })
+                .collect()
+        })
+        .collect()
 }
 
 fn sim(args: &[String]) {
